@@ -28,7 +28,7 @@ def run(ctx):
     vec = [v for v in vlib.read_ndjson(vlib.generate(ctx, "Bech32Gen")) if v["op"] == "bech32.Decode"]
     g = bc.run_ops(ctx, binp, vec, "g")
     for e in g:
-        e["t"] = 2
+        e["t"] = 100
     t = bc.record(ctx, binp, 25 if q else 400, "c16", focus="c16") + g
     vlib.note_events(ctx, t)
     bc.judge(ctx, binp, t, "real polymod differs from the specification's, or Decode accepted a string with 1..4 substituted characters")
